@@ -25,10 +25,12 @@ public:
   static double pw(double b, int k) { double r = 1; for (int i = 0; i < k; i++) r *= b; return r; }
   double poly(double x, double y, int dx, int dy) const { double s = 0; for (int i = dx; i <= deg; i++) for (int j = dy; i + j <= deg; j++) { double k = 1; for (int t = 0; t < dx; t++) k *= (i - t); for (int t = 0; t < dy; t++) k *= (j - t); s += k * c[i][j] * pw(x, i - dx) * pw(y, j - dy); } return s; }
   double getValue() const override { evals++; double v = deg >= 0 ? poly(X(), Y(), 0, 0) : __sym_apply2("f", X(), Y()); SYM_ASSUME(v > -1e6 && v < 1e6); return v; }   // ordinary magnitudes: the schemes treat |f| >= 1.7e23 as 'undefined' 
-  void enableFirstOrderDerivatives(bool) override {} bool enableFirstOrderDerivatives() const override { return true; }
-  void enableSecondOrderDerivatives(bool) override {} bool enableSecondOrderDerivatives() const override { return true; }
-  double getFirstOrderDerivative(const string& v) const override { if (deg < 0) return __sym_apply2(("df_" + v).c_str(), X(), Y()); return v == "x" ? poly(X(), Y(), 1, 0) : poly(X(), Y(), 0, 1); }
-  double getSecondOrderDerivative(const string& v) const override { if (deg < 0) return __sym_apply2(("d2f_" + v).c_str(), X(), Y()); return v == "x" ? poly(X(), Y(), 2, 0) : poly(X(), Y(), 0, 2); }
+  // the wrappers switch the analytic derivatives off while they probe: a derivative requested while its computation is switched off is recorded (a real function would not have it)
+  bool en1 = true, en2 = true; mutable bool askedWhileOff = false;
+  void enableFirstOrderDerivatives(bool b) override { en1 = b; } bool enableFirstOrderDerivatives() const override { return en1; }
+  void enableSecondOrderDerivatives(bool b) override { en2 = b; } bool enableSecondOrderDerivatives() const override { return en2; }
+  double getFirstOrderDerivative(const string& v) const override { if (!en1) askedWhileOff = true; if (deg < 0) return __sym_apply2(("df_" + v).c_str(), X(), Y()); return v == "x" ? poly(X(), Y(), 1, 0) : poly(X(), Y(), 0, 1); }
+  double getSecondOrderDerivative(const string& v) const override { if (!en2) askedWhileOff = true; if (deg < 0) return __sym_apply2(("d2f_" + v).c_str(), X(), Y()); return v == "x" ? poly(X(), Y(), 2, 0) : poly(X(), Y(), 0, 2); }
   double getSecondOrderDerivative(const string& v, const string& w) const override { if (deg < 0) return __sym_apply2(("d2f_" + v + w).c_str(), X(), Y()); if (v == w) return getSecondOrderDerivative(v); return poly(X(), Y(), 1, 1); }
 };
 struct Box { bool has; double l, u; };
@@ -152,11 +154,23 @@ extern "C" void verif_harness() {
     Box none{false, 0, 0}; double x1 = anyIn("x1", none), y1 = anyIn("y1", none);
     auto f = mkFn(-1, none, none, 1.0, 1.0);
     auto nd = mkScheme(scheme, f); nd->setInterval(h);
-    int sel = __sym_choose("selected", 0, 1); nd->setParametersToDerivate(selection(sel)); string other = sel == 0 ? "y" : "x";
+    int sel = __sym_choose("selected", 0, 1); string other = sel == 0 ? "y" : "x";
+    // the selection may replace an earlier one that contained the now unselected variable
+    int earlier = __sym_choose("earlierSelection", 0, 3); if (earlier == 1) nd->setParametersToDerivate(selection(1 - sel)); else if (earlier >= 2) nd->setParametersToDerivate(selection(earlier));
+    if (earlier && __sym_choose("updateBetween", 0, 1)) { ParameterList p0; p0.addParameter(Parameter("x", anyIn("x0", none))); p0.addParameter(Parameter("y", anyIn("y0", none))); nd->setParameters(p0); }
+    nd->setParametersToDerivate(selection(sel));
     ParameterList pl; pl.addParameter(Parameter("x", x1)); pl.addParameter(Parameter("y", y1)); nd->setParameters(pl);
-    SYM_ASSERT_EQ(nd->getFirstOrderDerivative(other), __sym_apply2(("df_" + other).c_str(), x1, y1), "first derivative for a variable that was not selected is not delegated to the wrapped function");
+    // optionally a further update that contains the unselected variable only
+    int then = __sym_choose("then", 0, 3); double xc = x1, yc = y1;
+    if (then) { double w = anyIn("w", none); SYM_ASSUME(!(w == (other == "x" ? x1 : y1))); ParameterList one; one.addParameter(Parameter(other, w));
+      if (then == 1) nd->setParameterValue(other, w); else if (then == 2) nd->matchParametersValues(one); else nd->setParametersValues(one); (other == "x" ? xc : yc) = w; }
+    SYM_ASSERT(f->getParameterValue("x") == xc && f->getParameterValue("y") == yc, "wrapped function is not left at the requested point");
+    SYM_ASSERT(f->en1, "the wrapped function's first derivatives are left switched off after an update");
+    SYM_ASSERT_EQ(nd->getFirstOrderDerivative(other), __sym_apply2(("df_" + other).c_str(), xc, yc), "first derivative for a variable that was not selected is not delegated to the wrapped function");
     if (scheme != 0) {   // (the two-point wrapper holds its function as first-order derivable only)
-      SYM_ASSERT_EQ(nd->getSecondOrderDerivative(other), __sym_apply2(("d2f_" + other).c_str(), x1, y1), "second derivative for a variable that was not selected is not delegated");
-      if (scheme == 1) SYM_ASSERT_EQ(nd->getSecondOrderDerivative("x", "y"), __sym_apply2("d2f_xy", x1, y1), "cross derivative is not delegated when cross-derivatives are not computed"); }   // (the five-point scheme documents cross derivatives as unimplemented)
+      SYM_ASSERT(f->en2, "the wrapped function's second derivatives are left switched off after an update");
+      SYM_ASSERT_EQ(nd->getSecondOrderDerivative(other), __sym_apply2(("d2f_" + other).c_str(), xc, yc), "second derivative for a variable that was not selected is not delegated");
+      if (scheme == 1) SYM_ASSERT_EQ(nd->getSecondOrderDerivative("x", "y"), __sym_apply2("d2f_xy", xc, yc), "cross derivative is not delegated when cross-derivatives are not computed"); }   // (the five-point scheme documents cross derivatives as unimplemented)
+    SYM_ASSERT(!f->askedWhileOff, "a delegated derivative was requested while the wrapped function's derivative computation was switched off");
   }
 }
